@@ -69,7 +69,8 @@ def native_check(cfg, env=None, seed=0, scale=1.0):
     full_m = st.rho(space, space)
     for i in (0, len(space) - 1):
         row, col = st.rho(space[i], space, expand=False), st.rho(space, space[i], expand=False)
-        if tuple(row.shape) != tuple(full_m[:, i, :].shape) or not C.close(row.numpy(), full_m[:, i, :].numpy()) or not C.close(col.numpy(), full_m[:, :, i].numpy()):
+        cz = lambda t: t[0].numpy() + 1j * t[1].numpy()       # noqa: E731  (compared as complex numbers: the tolerance is relative to the modulus)
+        if tuple(row.shape) != tuple(full_m[:, i, :].shape) or not C.close(cz(row), cz(full_m[:, i, :])) or not C.close(cz(col), cz(full_m[:, :, i])):
             fails.append(("rho(one state, batch, expand=False) / rho(batch, one state, expand=False) is not the row / column of the matrix", None))
     # a flag is a flag whatever object carries it: numpy / tensor booleans and 0 / 1 select the same call form as True / False
     for name, yes, no in (("numpy.bool_", np.True_, np.False_), ("int", 1, 0), ("0-d bool tensor", torch.tensor(True), torch.tensor(False))):
